@@ -5,7 +5,7 @@
   Lungo/Proofs/{Order,CompareLaws}.lean; this file only states the property theorems.
 
   Hypotheses.  `cmp_refl`, `cmp_swap` and `cmp_rank` hold for ALL values of the model type `V`.
-  Transitivity, congruence and numeric exactness need ONE well-formedness fact, `V.i64Ok`: every
+  Transitivity, congruence and numeric exactness need ONE well-formedness fact, `V.i64Ok` (Lungo/Spec/I64Ok.lean): every
   `int64` payload occurring in the value lies in the int64 range (`V.wf` implies it; a Go `int64`
   always satisfies it).  Reason: the model type stores an `i64` payload as an unbounded `Int`, and
   for an out-of-range payload the range checks of `compareInt64ToFloat64` ("double ≥ 2^63 ⇒ less",
